@@ -73,6 +73,36 @@ func catVT(cat string) string {
 	return ""
 }
 
+// freshRoot: the address lies inside an object allocated by this function
+// (field/element chains rooted at an Alloc); returns that Alloc.
+func freshRoot(addr ssa.Value) *ssa.Alloc {
+	for depth := 0; depth < 6; depth++ {
+		switch a := addr.(type) {
+		case *ssa.Alloc:
+			if !a.Heap {
+				return nil
+			}
+			for _, r := range *a.Referrers() {
+				if _, isPhi := r.(*ssa.Phi); isPhi {
+					return nil // may be known under another name in this function
+				}
+			}
+			return a
+		case *ssa.FieldAddr:
+			addr = a.X
+		case *ssa.IndexAddr:
+			// only arrays inside the object, not slices it points to
+			if _, isPtr := a.X.Type().Underlying().(*types.Pointer); !isPtr {
+				return nil
+			}
+			addr = a.X
+		default:
+			return nil
+		}
+	}
+	return nil
+}
+
 // mapCat: the write category of insertions into / deletions from maps of a type.
 func mapCat(t types.Type) string { return "M:|" + typeKey(t.Underlying()) }
 
@@ -131,10 +161,16 @@ func newMemInfo(w *World) *memInfo {
 				for _, in := range b.Instrs {
 					switch x := in.(type) {
 					case *ssa.Store:
+						if freshRoot(x.Addr) != nil {
+							continue // initialising an object this function allocated: invisible to callers' earlier knowledge
+						}
 						for _, c := range storeCats(x.Addr, x.Val.Type()) {
 							bitSet(&set, m.id(c))
 						}
 					case *ssa.MapUpdate:
+						if _, fresh := x.Map.(*ssa.MakeMap); fresh {
+							continue
+						}
 						bitSet(&set, m.id(mapCat(x.Map.Type())))
 					case ssa.CallInstruction:
 						if bi, ok := x.Common().Value.(*ssa.Builtin); ok && (bi.Name() == "delete" || bi.Name() == "clear") && len(x.Common().Args) > 0 {
@@ -211,6 +247,7 @@ type memVal struct {
 	edges []ssa.Value     // per predecessor of blk
 	addr  ssa.Value       // an address expression of the location (for reporting, globals)
 	sites []*ssa.BasicBlock // blocks of the last-write places that define an untracked value
+	siteIns []ssa.Instruction // the writing instructions among them (joins have none)
 	refs  []ssa.Instruction
 	pos   token.Pos
 }
@@ -283,11 +320,15 @@ func privateCell(v ssa.Value) bool {
 // Phase 2 propagates location contents like constant propagation; a
 // location that is not tracked holds "its contents since the last write",
 // a value named by (location, last-write places).
-func canonLoads(fn *ssa.Function, m *memInfo) (map[*ssa.UnOp]ssa.Value, map[*ssa.Call]ssa.Value) {
+// memQuery answers "what does field f of *base hold just before instruction ins?"
+type memQuery func(ins ssa.Instruction, base ssa.Value, field string) ssa.Value
+
+func canonLoads(fn *ssa.Function, m *memInfo) (map[*ssa.UnOp]ssa.Value, map[*ssa.Call]ssa.Value, memQuery) {
 	canon := map[*ssa.UnOp]ssa.Value{}
 	canonLen := map[*ssa.Call]ssa.Value{}
+	noQuery := func(ssa.Instruction, ssa.Value, string) ssa.Value { return nil }
 	if m == nil || len(fn.Blocks) == 0 {
-		return canon, canonLen
+		return canon, canonLen, noQuery
 	}
 	nb := len(fn.Blocks)
 	order := fn.DomPreorder()
@@ -296,22 +337,27 @@ func canonLoads(fn *ssa.Function, m *memInfo) (map[*ssa.UnOp]ssa.Value, map[*ssa
 	type wr struct {
 		cat   string
 		local bool
+		fresh string // id of the Alloc when the store initialises an object of this function
 	}
 	writesOf := func(ins ssa.Instruction) []wr {
 		var res []wr
 		switch x := ins.(type) {
 		case *ssa.Store:
+			fresh := ""
+			if al := freshRoot(x.Addr); al != nil {
+				fresh = valID(al)
+			}
 			for _, c := range storeCats(x.Addr, x.Val.Type()) {
-				res = append(res, wr{c, true})
+				res = append(res, wr{c, true, fresh})
 			}
 		case *ssa.MapUpdate:
-			res = append(res, wr{mapCat(x.Map.Type()), false})
+			res = append(res, wr{mapCat(x.Map.Type()), false, ""})
 		case ssa.CallInstruction:
 			com := x.Common()
 			if bi, ok := com.Value.(*ssa.Builtin); ok {
 				if (bi.Name() == "delete" || bi.Name() == "clear") && len(com.Args) > 0 {
 					if _, isMap := com.Args[0].Type().Underlying().(*types.Map); isMap {
-						res = append(res, wr{mapCat(com.Args[0].Type()), false})
+						res = append(res, wr{mapCat(com.Args[0].Type()), false, ""})
 					}
 				}
 				return res
@@ -319,13 +365,13 @@ func canonLoads(fn *ssa.Function, m *memInfo) (map[*ssa.UnOp]ssa.Value, map[*ssa
 			callees := m.w.Callees(x)
 			if len(callees) == 0 {
 				if com.IsInvoke() || com.StaticCallee() == nil {
-					res = append(res, wr{"*", false})
+					res = append(res, wr{"*", false, ""})
 				}
 				return res
 			}
 			for _, c := range callees {
 				for _, cat := range m.writeCats(c) {
-					res = append(res, wr{cat, false})
+					res = append(res, wr{cat, false, ""})
 				}
 				if pp := fnPkgPath(c); !isModPkg(pp) && !isDepPkg(pp) {
 					for _, a := range com.Args {
@@ -335,13 +381,13 @@ func canonLoads(fn *ssa.Function, m *memInfo) (map[*ssa.UnOp]ssa.Value, map[*ssa
 						}
 						if pt, ok := at.Underlying().(*types.Pointer); ok {
 							for _, cat := range storeCats(a, pt.Elem()) {
-								res = append(res, wr{cat, false})
+								res = append(res, wr{cat, false, ""})
 							}
 						}
 					}
 				}
 				if c.Pkg != nil && c.Pkg.Pkg.Path() == "encoding/binary" && c.Name() == "Read" {
-					res = append(res, wr{"*", false})
+					res = append(res, wr{"*", false, ""})
 				}
 			}
 		}
@@ -358,6 +404,7 @@ func canonLoads(fn *ssa.Function, m *memInfo) (map[*ssa.UnOp]ssa.Value, map[*ssa
 
 	// ---- phase 1: last-write places per category
 	siteBlock := map[string]*ssa.BasicBlock{}
+	siteInstr := map[string]ssa.Instruction{}
 	for _, b := range fn.Blocks {
 		siteBlock[fmt.Sprintf("b%d", b.Index)] = b
 	}
@@ -413,9 +460,13 @@ func canonLoads(fn *ssa.Function, m *memInfo) (map[*ssa.UnOp]ssa.Value, map[*ssa
 			}
 			for _, ins := range b.Instrs {
 				for _, w := range insWrites[ins] {
+					if w.fresh != "" {
+						continue
+					}
 					id := "i" + instrID(ins)
 					out[w.cat] = id
 					siteBlock[id] = b
+					siteInstr[id] = ins
 				}
 			}
 			same := killOut[i] != nil && len(killOut[i]) == len(out)
@@ -436,7 +487,7 @@ func canonLoads(fn *ssa.Function, m *memInfo) (map[*ssa.UnOp]ssa.Value, map[*ssa
 			break
 		}
 		if iter == 199 {
-			return canon, canonLen // no identification
+			return canon, canonLen, noQuery // no identification
 		}
 	}
 	versionOf := func(killed map[string]string, cat string) string {
@@ -470,6 +521,9 @@ func canonLoads(fn *ssa.Function, m *memInfo) (map[*ssa.UnOp]ssa.Value, map[*ssa
 			for _, sid := range strings.Split(version, "+") {
 				if sb := siteBlock[sid]; sb != nil {
 					v.sites = append(v.sites, sb)
+				}
+				if si := siteInstr[sid]; si != nil {
+					v.siteIns = append(v.siteIns, si)
 				}
 			}
 		}
@@ -534,6 +588,7 @@ func canonLoads(fn *ssa.Function, m *memInfo) (map[*ssa.UnOp]ssa.Value, map[*ssa
 	in := make([]map[string]memEntry, nb)
 	out := make([]map[string]memEntry, nb)
 	in[0] = map[string]memEntry{}
+	var record func(ins ssa.Instruction, st map[string]memEntry, killed map[string]string)
 	transfer := func(b *ssa.BasicBlock, st0 map[string]memEntry) map[string]memEntry {
 		st := make(map[string]memEntry, len(st0))
 		for k, v := range st0 {
@@ -580,17 +635,28 @@ func canonLoads(fn *ssa.Function, m *memInfo) (map[*ssa.UnOp]ssa.Value, map[*ssa
 					}
 				}
 			}
+			if record != nil {
+				switch ins.(type) {
+				case ssa.CallInstruction, *ssa.Store:
+					record(ins, st, killed)
+				}
+			}
 			ws := insWrites[ins]
 			if len(ws) == 0 {
 				continue
 			}
 			for _, w := range ws {
 				for k, e := range st {
+					if w.fresh != "" && !strings.Contains(k, w.fresh) {
+						continue // a different object
+					}
 					if killMatches(e, w.cat, w.local) {
 						delete(st, k)
 					}
 				}
-				killed[w.cat] = "i" + instrID(ins)
+				if w.fresh == "" {
+					killed[w.cat] = "i" + instrID(ins)
+				}
 			}
 			if x, ok := ins.(*ssa.Store); ok {
 				if k, cat, ok := addrKey(x.Addr); ok {
@@ -718,8 +784,77 @@ func canonLoads(fn *ssa.Function, m *memInfo) (map[*ssa.UnOp]ssa.Value, map[*ssa
 			if os.Getenv("SFNT_MEMDEBUG") != "" {
 				fmt.Println("memory analysis: no fixpoint in", fnName(fn))
 			}
-			return map[*ssa.UnOp]ssa.Value{}, map[*ssa.Call]ssa.Value{}
+			return map[*ssa.UnOp]ssa.Value{}, map[*ssa.Call]ssa.Value{}, noQuery
 		}
+	}
+	// snapshots of the state before every call, for queries about field contents at call sites
+	type snapT struct {
+		st     map[string]memEntry
+		killed map[string]string
+	}
+	snaps := map[ssa.Instruction]snapT{}
+	record = func(ins ssa.Instruction, st map[string]memEntry, killed map[string]string) {
+		s2 := snapT{st: make(map[string]memEntry, len(st)), killed: make(map[string]string, len(killed))}
+		for k, v := range st {
+			s2.st[k] = v
+		}
+		for k, v := range killed {
+			s2.killed[k] = v
+		}
+		snaps[ins] = s2
+	}
+	for _, b := range order {
+		if in[b.Index] != nil || b.Index == 0 {
+			transfer(b, in[b.Index])
+		}
+	}
+	record = nil
+	query := func(ins ssa.Instruction, base ssa.Value, field string) ssa.Value {
+		sn, ok := snaps[ins]
+		if ins == nil {
+			sn, ok = snapT{}, true // function entry
+		}
+		if !ok {
+			return nil
+		}
+		if field == "#maplen" {
+			if _, isMap := base.Type().Underlying().(*types.Map); !isMap {
+				return nil
+			}
+			key := "ML@" + valID(resolve(base))
+			cat := mapCat(base.Type())
+			if e, ok := sn.st[key]; ok {
+				return e.val
+			}
+			if _, known := keyCat[key]; !known {
+				keyCat[key], keyTyp[key] = cat, types.Typ[types.Int]
+			}
+			return sinceVal(key, versionOf(sn.killed, cat))
+		}
+		pt, ok := base.Type().Underlying().(*types.Pointer)
+		if !ok {
+			return nil
+		}
+		stt, ok := pt.Elem().Underlying().(*types.Struct)
+		if !ok {
+			return nil
+		}
+		for i := 0; i < stt.NumFields(); i++ {
+			if stt.Field(i).Name() != field {
+				continue
+			}
+			name := "F:" + typeKey(pt.Elem()) + "." + field
+			key := name + "@" + valID(resolve(base))
+			cat := name + "|" + typeKey(stt.Field(i).Type())
+			if e, ok := sn.st[key]; ok {
+				return e.val
+			}
+			if _, known := keyCat[key]; !known {
+				keyCat[key], keyTyp[key] = cat, stt.Field(i).Type()
+			}
+			return sinceVal(key, versionOf(sn.killed, cat))
+		}
+		return nil
 	}
 	// a merge value is usable where its block dominates
 	for ld, rep := range canon {
@@ -736,7 +871,7 @@ func canonLoads(fn *ssa.Function, m *memInfo) (map[*ssa.UnOp]ssa.Value, map[*ssa
 			canonLen[lc] = lc
 		}
 	}
-	return canon, canonLen
+	return canon, canonLen, query
 }
 
 func addrKeyRec(a *ssa.FieldAddr, resolve func(ssa.Value) ssa.Value) (string, bool) {
